@@ -311,7 +311,7 @@ def check_optimality(case, ctx):
     comps = _competitors(case, info, t, z_est, qt, empi)
     # failures of a run that shows the stall signature are named "stalled:backtracking:..." (known finding C11-F2 covers
     # only those); a run that converged to a non-optimal point is reported under the plain name
-    bt = "stalled:backtracking" if c10.line_search_stalled(det) else "backtracking"
+    bt = "stalled:backtracking" if c10.line_search_stalled(det, mild=True) else "backtracking"
     if bt != "backtracking":
         ctx.label("line-search-stalled")
     l_est = _optimality(ctx, case, info, t, a, sizes, q, z_est, comps, bt)
